@@ -68,3 +68,30 @@ reg("C04", harness="c04_crc", level="exploration", deadline=(240, 1500),
     runs=[dict(flavour="sim")],
     rule="case = (implementation, len, placement, data, seed) or (implementation, len, impulse position/bit) or (implementation, len, split); "
          "distinct_nontrivial = distinct (implementation, len) pairs fully swept; evaluations = kernel calls compared with the reference.")
+
+
+reg("C03", harness="c03_ec", level="exploration", deadline=(240, 1500),
+    technique="bounded-exhaustive enumeration of kernel x shape (len, alignment, k, rows) sub-products + complete 256x256 multiplication table per kernel, guard pages",
+    level_text="For each of the 46 dot-product/encode symbols and the dispatched ec_encode_data/gf_vect_dot_prod under 7 simulated CPU levels: "
+               "(a) every len minlen..320 (thorough ..1100) x 64 source offsets x 5 destination offsets + end-flush placement at k=3, (b) 38 "
+               "source counts up to 255, (c) rows 1..13 for the high-level entries, (d) all 256 coefficients x all 256 byte values through the "
+               "kernel's main loop and tail; outputs compared byte for byte with an independent GF(2^8) matrix product, sources read-only or "
+               "compared, canaries and inaccessible pages around every buffer.",
+    level_note="the full 5-way product is not claimed; the sub-products decide all data only under the no-data-dependent-branch assumption "
+               "(kernels are linear maps); trusted: ref/ref_gf.h.",
+    runs=[dict(flavour="sim")],
+    rule="case = (implementation, len, k, rows, source placement, destination placement); distinct_nontrivial = distinct (implementation, len) / "
+         "(implementation, k) / (implementation, rows) points completed; evaluations = kernel calls compared with the reference.")
+
+
+reg("C13", harness="c13_update", level="exploration", deadline=(240, 1500),
+    technique="bounded-exhaustive enumeration of update histories (all k! orders, k<=6) x kernel x shape, guard pages, vs independent full encode",
+    level_text="For each of the 43 multiply-accumulate/update symbols and the dispatched ec_encode_data_update/gf_vect_mad under 7 CPU levels: every "
+               "length minlen..320 (thorough ..1100) with accumulate onto non-zero parity at 17 placements, ALL k! update orders for k=1..6 (873 "
+               "histories x 3 lengths) each ending with a doubled update that must cancel, k in {10,32,255} in three orders, rows 1..13, the "
+               "full 256x256 multiplication table; gf_vect_mul_{base,sse,avx,dispatched} for every len 0..700 (2200). Parity is compared with "
+               "the reference after EVERY step of every history.",
+    level_note="orders for k>6 are three designed ones; data-independence rests on the linearity assumption (dense xorshift data). trusted: ref/ref_gf.h",
+    runs=[dict(flavour="sim")],
+    rule="case = (implementation, len, k, rows, update history, placements); distinct_nontrivial = distinct (implementation, shape point) groups "
+         "completed; evaluations = single update calls whose resulting parity was compared with the reference.")
